@@ -11,6 +11,8 @@ CONSTANTS
   MaxDepth = 2
   CellMask = TRUE
   CopyClear = TRUE
+  Grow = 0
+  GrowDepth = 1
   DataCopyDepth = 1
   Valueless = TRUE
   Deviations = {}
